@@ -147,17 +147,17 @@ class Reader:
         self.check_profiles_in = set(check_profiles_in)
         self.toks: List[str] = []
         self.pos = 0
+        self.expansions = 0
         # set when an unknown profile is seen in a section not listed in check_profiles_in
         self.unknown_elsewhere: List[Tuple[str, str]] = []
 
     # -- token access (aliases are substituted when a token is looked at) -----------------------
     def _expand_here(self) -> None:
         """textual substitution: an alias label is replaced by its replacement tokens"""
-        guard = 0
         while self.pos < len(self.toks) and self.toks[self.pos] in self.aliases:
             self.toks[self.pos:self.pos + 1] = self.aliases[self.toks[self.pos]]
-            guard += 1
-            if guard > 50:
+            self.expansions += 1
+            if self.expansions > 5000:
                 raise Ambiguous("alias loop")
 
     def peek(self, raw: bool = False) -> Optional[str]:
@@ -206,6 +206,7 @@ class Reader:
            self.rules / self.aliases. Raises IllFormed / Ambiguous."""
         self.toks = tokenise(text)
         self.pos = 0
+        self.expansions = 0
         new: List[RuleDenotation] = []
         if not self.toks:
             raise Ambiguous("empty text")
@@ -250,6 +251,10 @@ class Reader:
             value.append(self.take())
         if not value:
             raise IllFormed("syntax", "empty alias value")
+        if label in value:
+            # textual substitution of a label by a text containing the label never ends; the
+            # documentation is silent (NB: the real parser loops forever on some such inputs)
+            raise Ambiguous("alias value mentions its own label")
         self.aliases[label] = value
 
     def _read_rule(self) -> RuleDenotation:
